@@ -76,12 +76,18 @@ struct SimSource {
         return r;
     }
 
+    // a second task scheduled at a seam point, as on the sink side: when the source driver is entered for the (intrude_at)-th time in this op,
+    // another piece of work that uses the library on objects of its own runs to completion first
+    int64_t intrude_at = -1; void (*intruder)(void *) = nullptr; void *intruder_arg = nullptr;
+    void maybe_intrude() { if (intruder && intrude_at >= 0 && (int64_t)calls == intrude_at + 1) { void (*f)(void *) = intruder; intruder = nullptr; f(intruder_arg); } }
+
     void begin_op(const Json &scr) { script.load(scr); calls = 0; errors.clear(); partials = zeros = 0; }
     void begin_op() { script.clear(); calls = 0; errors.clear(); partials = zeros = 0; }
 
     ssize_t chunk(void *buf, size_t n) {
         ++calls;
         c->step_budget();
+        maybe_intrude();
         ssize_t rv;
         int64_t s;
         if (err_pos >= 0 && (int64_t)pos == err_pos) {
@@ -116,6 +122,7 @@ struct SimSource {
     int octet(void *out) {
         ++calls;
         c->step_budget();
+        maybe_intrude();
         int rv;
         int64_t s;
         if (err_pos >= 0 && (int64_t)pos == err_pos) {
